@@ -652,7 +652,7 @@ class Scalar(Qube):
         Units.require_angle(self._units_)
 
         if check:
-            no_oflow = self.mask_where_gt(EXP_CUTOFF, replace=EXP_CUTOFF)
+            no_oflow = self.mask_where_gt(EXP_CUTOFF, replace=0.)
             exp_values = np.exp(no_oflow._values_)
 
         else:
